@@ -190,6 +190,48 @@ inductive PreDecision where
   | unavailable                           -- cannot be measured here (form parsing needs werkzeug, which is not installed)
   deriving Repr, DecidableEq
 
+/-! ### the decompose stage of Soap11 / Soap12 over envelope shapes -/
+
+inductive ENs where | own | other | wrong
+  deriving Repr, DecidableEq
+inductive EHeader where | absent | empty | one | two | unknown | text
+  deriving Repr, DecidableEq
+inductive EBody where | absent | empty | text | comment | two | wrongNs | faultElem | valid
+  deriving Repr, DecidableEq
+
+/-- the shape of a SOAP envelope: protocol, namespace of the Envelope element (the protocol's own, that of the other
+    SOAP version, something else), what the Header holds (absent, no entry, one / two declared entries, an undeclared
+    entry, text only), what the Body holds -/
+structure EnvKey where
+  soap12 : Bool
+  ns : ENs
+  header : EHeader
+  body : EBody
+  deriving Repr, DecidableEq
+
+def ENs.idx : ENs → Nat | .own => 0 | .other => 1 | .wrong => 2
+def EHeader.idx : EHeader → Nat | .absent => 0 | .empty => 1 | .one => 2 | .two => 3 | .unknown => 4 | .text => 5
+def EBody.idx : EBody → Nat
+  | .absent => 0 | .empty => 1 | .text => 2 | .comment => 3 | .two => 4 | .wrongNs => 5 | .faultElem => 6 | .valid => 7
+
+def EnvKey.idx (k : EnvKey) : Nat := (((if k.soap12 then 1 else 0) * 3 + k.ns.idx) * 6 + k.header.idx) * 8 + k.body.idx
+def EnvKey.count : Nat := 2 * 3 * 6 * 8
+
+/-- what the server does with an envelope of this shape (measured on ServerBase) -/
+inductive EnvDecision where
+  | called                          -- the method is dispatched and runs
+  | clientFault (code : String)
+  | serverFault (code : String)
+  | escape (exc : Name)
+  deriving Repr, DecidableEq
+
+/-- the measured row as the outcome of the funnel's dispatch stage -/
+def EnvDecision.codec : EnvDecision → Codec
+  | .called => .ok
+  | .clientFault c => .fault c
+  | .serverFault c => .fault c
+  | .escape e => .crash ⟨e, [e, "Exception", "BaseException", "object"]⟩
+
 /-! ### facts -/
 
 structure Facts10 where
@@ -214,8 +256,12 @@ structure Facts10 where
   okStatus : Nat
   /-- the measured transport decision table, `PreKey.idx` order -/
   preTable : List PreDecision
+  /-- the measured envelope table of Soap11 / Soap12, `EnvKey.idx` order -/
+  envTable : List EnvDecision
 
 def Facts10.pre (F : Facts10) (k : PreKey) : PreDecision := F.preTable.getD k.idx (.escape "row missing")
+
+def Facts10.env (F : Facts10) (k : EnvKey) : EnvDecision := F.envTable.getD k.idx (.escape "row missing")
 
 /-! ### the funnel -/
 
